@@ -42,6 +42,7 @@ import FwdVerif.Lemmas.RespParse
 import FwdVerif.Lemmas.RespFlush
 import FwdVerif.Lemmas.RespFlushConn
 import FwdVerif.Lemmas.RespHeadWF
+import FwdVerif.Lemmas.ReqConn
 
 namespace FwdVerif
 namespace C02
@@ -572,6 +573,149 @@ example : ∃ r, processResponse Ex.rcGet Ex.oGzChunked = .ok r ∧ r.body = .sa
   show processResponse Ex.rcGet Ex.oGzChunked = _
   unfold Ex.rcGet Ex.oGzChunked
   resp_eval
+
+/-! ## G. the request side of a keep-alive connection (`Model/ReqConn.lean`)
+
+  "The k-th response answers the k-th request" needs the proxy to read the client's byte stream the
+  way the client framed it, whatever it does with the individual requests: a request the proxy answers
+  itself (407 / 403 / 451 / 400 from a request modifier, no round trip) occupies exactly the same
+  bytes of the connection as one it forwards.  `ReqConn.serve .always d` is the connection loop of
+  `proxyConn.handle` with its deferred `req.Body.Close()`; `d : ReqHead → Disp` (answered locally or
+  forwarded, close or keep-alive) is arbitrary in every theorem.  `ReqConn.frames` is the client's view
+  of the same bytes. -/
+
+/-- a refusal consumes the body: the bytes an exchange takes off the connection do not depend on what
+    became of the request -/
+theorem c02_refusal_consumes_body (d d' : ReqConn.Disp) (fr : ReqConn.Framing) (r : Bytes) :
+    ReqConn.consumed .always d fr r = ReqConn.consumed .always d' fr r ∧
+      ReqConn.consumed .always d fr r = ReqConn.readBody fr r := by
+  simp [ReqConn.consumed_always]
+
+/-- the full statement, for a loop with drain policy `m`: the requests acted on, and the state the
+    connection is left in, are the client's framing cut after the first response that closes -/
+def c02_reader_full (m : ReqConn.Drain) : Prop :=
+  ∀ (d : ReqConn.ReqHead → ReqConn.Disp) (inp : Bytes),
+    ReqConn.serve m d inp = ReqConn.cut d (ReqConn.frames inp).1 (ReqConn.frames inp).2
+
+/-- **the sequence of requests the proxy acts on equals the sequence the client framed**, for every
+    decision function and every byte stream -/
+theorem c02_acted_eq_framed : c02_reader_full .always := by
+  intro d inp
+  exact ReqConn.serveAux_always d _ inp
+
+/-- … so it is a prefix of the client's sequence (all of it when nothing closes the connection):
+    no request is built from body bytes, none is skipped, none is split -/
+theorem c02_acted_prefix_of_framed (d : ReqConn.ReqHead → ReqConn.Disp) (inp : Bytes) :
+    (ReqConn.serve .always d inp).1.map ReqConn.Acted.item =
+      (ReqConn.frames inp).1.take (ReqConn.serve .always d inp).1.length := by
+  rw [c02_acted_eq_framed d inp]
+  exact ReqConn.cut_items d _ _
+
+/-- … independent of which of them were refused locally: two decision functions that agree on
+    `close` act on the same requests and leave the connection in the same state -/
+theorem c02_acted_independent_of_refusals (d d' : ReqConn.ReqHead → ReqConn.Disp)
+    (hc : ∀ h, (d h).close = (d' h).close) (inp : Bytes) :
+    (ReqConn.serve .always d inp).1.map ReqConn.Acted.item =
+        (ReqConn.serve .always d' inp).1.map ReqConn.Acted.item ∧
+      (ReqConn.serve .always d inp).2 = (ReqConn.serve .always d' inp).2 := by
+  rw [c02_acted_eq_framed d inp, c02_acted_eq_framed d' inp]
+  exact ReqConn.cut_congr_close d d' hc _ _
+
+/-- **the k-th response answers the k-th request** the client framed, and it is the proxy's own answer
+    exactly when the decision for that request says so -/
+theorem c02_kth_response_answers_kth_request (d : ReqConn.ReqHead → ReqConn.Disp) (inp : Bytes) (k : Nat)
+    (hk : k < (ReqConn.serve .always d inp).1.length) :
+    ∃ i a, (ReqConn.frames inp).1[k]? = some i ∧
+      (ReqConn.answers (ReqConn.serve .always d inp).1)[k]? = some a ∧
+      a.to = i.head ∧ a.status = (d i.head).refused := by
+  have hp := c02_acted_prefix_of_framed d inp
+  have hd : ∀ a ∈ (ReqConn.serve .always d inp).1, a.disp = d a.head := by
+    rw [c02_acted_eq_framed d inp]
+    exact ReqConn.cut_disp d _ _
+  obtain ⟨a, ha⟩ : ∃ a, (ReqConn.serve .always d inp).1[k]? = some a := ⟨_, List.getElem?_eq_getElem hk⟩
+  have h1 : ((ReqConn.serve .always d inp).1.map ReqConn.Acted.item)[k]? = some a.item := by
+    simp [ha]
+  rw [hp, List.getElem?_take, if_pos hk] at h1
+  refine ⟨a.item, ⟨a.head, a.disp.refused⟩, h1, by simp [ReqConn.answers, ha], rfl, ?_⟩
+  show a.disp.refused = (d a.head).refused
+  rw [hd a (List.mem_of_getElem? ha)]
+
+/-- the next hop is sent only requests the client framed, in the client's order -/
+theorem c02_origin_sees_only_framed_requests (d : ReqConn.ReqHead → ReqConn.Disp) (inp : Bytes) :
+    (ReqConn.forwarded (ReqConn.serve .always d inp).1).Sublist (ReqConn.frames inp).1 := by
+  have hp := c02_acted_prefix_of_framed d inp
+  unfold ReqConn.forwarded
+  refine List.Sublist.trans (List.Sublist.map _ List.filter_sublist) ?_
+  rw [hp]
+  exact List.take_sublist _ _
+
+/-- **requests are self-delimiting**: what a client writes back to back — no body, `Content-Length`
+    bodies, chunked bodies with trailers — is read as exactly those requests, nothing left over and no
+    byte of one request in the next -/
+theorem c02_request_sequence (cs : List ReqConn.ClientReq) (hwf : ∀ c ∈ cs, c.WF) :
+    ReqConn.frames (cs.flatMap ReqConn.ClientReq.wire) = (cs.map ReqConn.ClientReq.expected, .idle) :=
+  ReqConn.frames_wire cs hwf
+
+/-- a pipeline of well-formed requests through a proxy that keeps the connection open: every request is
+    acted on, in order, with its own body, whichever of them are refused; the connection is idle after -/
+theorem c02_pipeline_served (cs : List ReqConn.ClientReq) (hwf : ∀ c ∈ cs, c.WF)
+    (d : ReqConn.ReqHead → ReqConn.Disp) (hd : ∀ h, (d h).close = false) :
+    (ReqConn.serve .always d (cs.flatMap ReqConn.ClientReq.wire)).1.map ReqConn.Acted.item =
+        cs.map ReqConn.ClientReq.expected ∧
+      (ReqConn.serve .always d (cs.flatMap ReqConn.ClientReq.wire)).2 = .idle := by
+  rw [c02_acted_eq_framed d _, c02_request_sequence cs hwf]
+  apply ReqConn.cut_no_close d hd
+  intro i hi
+  obtain ⟨c, _, rfl⟩ := List.mem_map.mp hi
+  simp [ReqConn.ClientReq.expected]
+
+/-- non-vacuity: a `Content-Length` request and a chunked one with a trailer are well formed -/
+example :
+    let post : ReqConn.ClientReq :=
+      ⟨⟨ReqConn.Ex.POST, ReqConn.Ex.upload, 1, [([72, 111, 115, 116], [111]), (Name.contentLength, [50])]⟩,
+        .len 2, [[104], [105]], []⟩
+    let chunked : ReqConn.ClientReq :=
+      ⟨⟨ReqConn.Ex.POST, ReqConn.Ex.upload, 1, [(Name.transferEncoding, Name.chunked)]⟩,
+        .chunked, [[104, 105], [33]], [([88, 45, 84], [49])]⟩
+    post.WF ∧ chunked.WF := by
+  refine ⟨⟨by decide, by decide, by decide, by decide, by decide, by decide, ?_, by simp, by decide, by decide⟩,
+    ⟨by decide, by decide, by decide, by decide, by decide, by decide, ?_, ?_, by decide, by decide⟩⟩
+  all_goals
+    intro f hf
+    simp only [List.mem_cons, List.not_mem_nil, or_false] at hf
+    rcases hf with rfl | rfl <;> exact (lineWF_iff _).mpr (by decide)
+
+/-- without the drain of refused requests the statement is FALSE: on `Ex.stream` (a POST whose
+    `Content-Length` body reads `GET /from-the-body HTTP/1.1 …`, then `GET /second`), with every POST
+    answered 407 on a connection that stays open -/
+theorem c02_unconsumed_refusal_witness : ¬ c02_reader_full .forwardedOnly := by
+  intro h
+  have := h ReqConn.Ex.refusePost ReqConn.Ex.stream
+  revert this
+  decide +kernel
+
+/-- what exactly goes wrong on that stream.  The client framed two requests.  With the drain the proxy
+    answers 407 to the POST and forwards `GET /second`.  Without it the body is read as a request:
+    the next hop is sent `GET /from-the-body`, which the client never sent as a request, and the second
+    response on the connection answers that request instead of `GET /second`. -/
+example :
+    ((ReqConn.frames ReqConn.Ex.stream).1.map (·.head.target) = [ReqConn.Ex.upload, ReqConn.Ex.secondT]) ∧
+    ((ReqConn.serve .always ReqConn.Ex.refusePost ReqConn.Ex.stream).1.map (fun a => (a.head.target, a.disp.refused)) =
+      [(ReqConn.Ex.upload, some 407), (ReqConn.Ex.secondT, none)]) ∧
+    ((ReqConn.forwarded (ReqConn.serve .forwardedOnly ReqConn.Ex.refusePost ReqConn.Ex.stream).1).map (·.head.target) =
+      [ReqConn.Ex.fromTheBody, ReqConn.Ex.secondT]) ∧
+    (((ReqConn.answers (ReqConn.serve .forwardedOnly ReqConn.Ex.refusePost ReqConn.Ex.stream).1)[1]?).map (·.to.target) =
+      some ReqConn.Ex.fromTheBody) ∧
+    (((ReqConn.frames ReqConn.Ex.stream).1[1]?).map (·.head.target) = some ReqConn.Ex.secondT) := by
+  decide +kernel
+
+/-- the two loops differ on refused requests only: when nothing is refused (or, by
+    `c02_refusal_consumes_body`, when refused requests carry no body) they read the same requests -/
+theorem c02_drain_matters_for_refusals_only (m : ReqConn.Drain) (d : ReqConn.ReqHead → ReqConn.Disp)
+    (hd : ∀ h, (d h).refused = none) (inp : Bytes) :
+    ReqConn.serve m d inp = ReqConn.serve .always d inp :=
+  ReqConn.serveAux_no_refusal m d hd _ inp
+
 
 end C02
 end FwdVerif
